@@ -256,6 +256,8 @@ class Scenario:
             self.new = _random_records(case, case["n_new"], case["chunksize"])
         self.centers = _centers(case, {k_: v for k_, v in self.new.items() if k_ != "_rad"}, self.old)
         self.target = "cat"  # relative to the work directory
+        # prefix of the result files; every other scenario uses one that contains a dot
+        self.cd_name = "cd" if case["data_seed"] % 2 else "cd_z0.5"
         self.expect: dict[str, dict] = {}
         self.fresh_trees: dict[str, dict] = {}
         self.binnings: dict[str, tuple | None] = {}
@@ -310,18 +312,18 @@ class Scenario:
                     if w == "corrfunc_file":
                         self.cf_old.to_file(os.path.join(self.tpl, "out", "cf.hdf"))
                     else:
-                        self.sd_old.to_files(os.path.join(self.tpl, "out", "cd"))
+                        self.sd_old.to_files(os.path.join(self.tpl, "out", self.cd_name))
                 # what a completed write reads back as (text files round)
                 done = os.path.join(root, "done_io")
                 os.makedirs(done)
                 self.cf_new.to_file(os.path.join(done, "cf.hdf"))
                 self.cf_old.to_file(os.path.join(done, "cf_old.hdf"))
-                self.sd_new.to_files(os.path.join(done, "cd"))
+                self.sd_new.to_files(os.path.join(done, self.cd_name))
                 self.sd_old.to_files(os.path.join(done, "cd_old"))
                 self.io_expect = dict(
                     cf_new=orc.corrfunc_state(yaw.CorrFunc.from_file(os.path.join(done, "cf.hdf"))),
                     cf_old=orc.corrfunc_state(yaw.CorrFunc.from_file(os.path.join(done, "cf_old.hdf"))),
-                    cd_new=orc.sampled_state(self.sd_cls.from_files(os.path.join(done, "cd"))),
+                    cd_new=orc.sampled_state(self.sd_cls.from_files(os.path.join(done, self.cd_name))),
                     cd_old=orc.sampled_state(self.sd_cls.from_files(os.path.join(done, "cd_old"))),
                 )
             else:
@@ -362,7 +364,7 @@ class Scenario:
     def next_use_spec(self) -> dict:
         """Everything the next use needs, as plain data: it runs in a new process (child of the
         zygote forked before this process touched the library)."""
-        keys = ("base", "io_expect", "sd_cls", "case", "expect", "binnings", "fresh_trees", "fresh_meas", "old_trees")
+        keys = ("base", "io_expect", "sd_cls", "case", "expect", "binnings", "fresh_trees", "fresh_meas", "old_trees", "cd_name")
         return {k_: self.__dict__[k_] for k_ in keys if k_ in self.__dict__}
 
     def next_use_binnings(self) -> list[str]:
@@ -450,7 +452,7 @@ class Scenario:
             elif w == "corrfunc_file":
                 self.cf_new.to_file(os.path.join(workdir, "out", "cf.hdf"))
             elif w == "corrdata_files":
-                self.sd_new.to_files(os.path.join(workdir, "out", "cd"))
+                self.sd_new.to_files(os.path.join(workdir, "out", self.cd_name))
 
     # ---- next use (runs in a fresh recovery child, shim disarmed)
     def next_use(self, workdir: str, which: str = "new") -> dict:
@@ -464,7 +466,7 @@ class Scenario:
                         got = orc.corrfunc_state(yaw.CorrFunc.from_file(os.path.join(workdir, "out", "cf.hdf")))
                         new, old = self.io_expect["cf_new"], self.io_expect["cf_old"]
                     else:
-                        got = orc.sampled_state(self.sd_cls.from_files(os.path.join(workdir, "out", "cd")))
+                        got = orc.sampled_state(self.sd_cls.from_files(os.path.join(workdir, "out", self.cd_name)))
                         new, old = self.io_expect["cd_new"], self.io_expect["cd_old"]
                 except Exception as err:  # noqa: BLE001
                     return dict(cls="ERROR", detail=type(err).__name__)
